@@ -448,8 +448,9 @@ func suiteNumbers(o *suiteOut, r *rng, tier string, n int) {
 	// 3b. nearly horizontal and nearly vertical steps far from the origin: whether a step may be written with the
 	// one-operand forms (hlineto, vlineto, hvcurveto, vhcurveto) depends on the size of the perpendicular delta, not
 	// on the size of the coordinates
-	for _, base := range []float64{5000, 20000, 300000, -70000, 999000} {
-		for _, eps := range []float64{1e-7, 5e-7, 2e-6, 1e-5, 0.001, 0.004, 0.015, 0.25} {
+	for _, base := range []float64{0, 10, 5000, 20000, 300000, -70000, 999000} {
+		// (the interesting sizes: below the 1e-6 the encoder ignores, and on both sides of the resolution 1/214 = 0.004673)
+		for _, eps := range []float64{1e-7, 5e-7, 2e-6, 1e-5, 0.001, 0.004, 0.00466, 0.00468, 0.0048, 0.0049, 0.00499, 0.0051, 0.015, 0.25} {
 			g := &numGlyph{wx: 500}
 			g.cmds = []type1.GlyphOp{
 				{Op: type1.OpMoveTo, Args: []float64{0, base}},
